@@ -120,6 +120,51 @@ Proof.
   apply loop_fullspace; [exact Hbs | unfold Inv; cbn; repeat split; lia | cbn; lia].
 Qed.
 
+(* which test fired: the exit is the first one whose condition holds *)
+Lemma step_exit n bs brk conv s :
+  match fst (step n bs brk conv s) with
+  | inl (e, it, _) => (e = FullSpace -> sj s = n - 1) /\ (e = Breakdown -> brk (sj s) = true)
+  | inr _ => brk (sj s) = false
+  end.
+Proof.
+  unfold step. destruct (Nat.eqb_spec (sj s) (n - 1)) as [E|E]; cbn [fst].
+  - split; [auto | discriminate].
+  - destruct (brk (sj s)) eqn:B; cbn [fst]; [split; [discriminate | auto]|].
+    match goal with |- context [if ?c then _ else _] => destruct c end; cbn [fst]; [split; discriminate | reflexivity].
+Qed.
+
+Lemma loop_exit n bs brk conv : 1 <= bs -> forall fuel s, Inv n s -> fuel + sj s = n ->
+  (forall j, j < sj s -> brk j = false) ->
+  forall e it s', fst (loop fuel n bs brk conv s) = Some (e, it, s') ->
+    (forall j, j + 1 < it -> brk j = false) /\ (e = Breakdown -> brk (it - 1) = true) /\ (e = FullSpace -> it = n).
+Proof.
+  intros Hbs. induction fuel as [|f IH]; intros s HI Hf Hb e it s' E.
+  - cbn in E. discriminate.
+  - cbn [loop] in E. pose proof (step_ok n bs brk conv s Hbs HI) as Hs. pose proof (step_exit n bs brk conv s) as Hx.
+    cbn zeta in Hs. destruct (step n bs brk conv s) as [[[[e0 it0] sf]|s1] ev]; cbn [fst snd] in *.
+    + injection E as -> -> ->. destruct Hs as (_ & Hit & Hn & _). destruct Hx as [X1 X2].
+      split; [intros j Hj; apply Hb; lia|]. split.
+      * intros He. replace (it - 1) with (sj s) by lia. auto.
+      * intros He. specialize (X1 He). destruct HI as (_ & _ & _ & I4). lia.
+    + destruct Hs as (_ & HI' & Hj). apply (IH s1 HI') with (s' := s'); [lia | | exact E].
+      intros j Hlt. destruct (Nat.eq_dec j (sj s)) as [->|Hne]; [exact Hx | apply Hb; lia].
+Qed.
+
+Theorem krylov_exit_spec n bs brk conv : 1 <= n -> 1 <= bs ->
+  forall e it s, fst (run n bs brk conv) = Some (e, it, s) ->
+    1 <= it /\ it <= n /\ (forall j, j + 1 < it -> brk j = false) /\
+    (e = Breakdown -> brk (it - 1) = true) /\ (e = FullSpace -> it = n).
+Proof.
+  intros Hn Hbs e it s E.
+  destruct (krylov_buffers_safe n bs brk conv Hn Hbs) as (_ & e' & it' & s' & E' & H1 & H2 & _).
+  rewrite E in E'. injection E' as <- <- <-.
+  unfold run, init in E. cbn [fst snd] in E.
+  assert (HI : Inv n {| sj := 0; lv := bs; la := bs; lb := bs - 1; hasres := false |}) by (unfold Inv; cbn; repeat split; lia).
+  destruct (loop_exit n bs brk conv Hbs n _ HI (Nat.add_0_r n) (fun j (H : j < 0) => match Nat.nlt_0_r j H with end) e it s E)
+    as (X1 & X2 & X3).
+  repeat split; auto.
+Qed.
+
 (* ================================================================== Part 2: algebra *)
 Section AlgebraProofs.
   Variable R : CRing.
@@ -257,3 +302,343 @@ Proof. vm_compute. reflexivity. Qed.
 
 Lemma sites_hermitian : forall s, In s sites -> site_ok s = true.
 Proof. intros s Hs. pose proof sites_hermitian_b as H. rewrite forallb_forall in H. apply H. exact Hs. Qed.
+
+(* ================================================================== Part 4: the loop with its data *)
+Section DataProofs.
+  Variable R : CRing.
+  Add Ring RRd : (rth R).
+  Notation "0" := (r0 R).
+  Notation "1" := (r1 R).
+  Infix "+" := (radd R).
+  Infix "*" := (rmul R).
+  Infix "-" := (rsub R).
+
+  Variable N : nat.
+  Variable A : matx R.
+  Variable inv : R -> R.
+  Variable nrm : vec R -> R.
+  Variable rpart : R -> R.
+  Variable isz : R -> bool.
+  Variable v0 : vec R.
+
+  (* contracts of the abstract operations *)
+  Hypothesis inv_ok : forall x, isz x = false -> x * inv x = 1.                       (* x / x = 1 unless "zero" *)
+  Hypothesis nrm_zero : forall w, isz (nrm w) = true -> forall i, i < N -> w i = 0.   (* exact breakdown: ||w|| = 0 -> w = 0 *)
+
+  Notation Vk := (Vk R N A inv nrm rpart v0).
+  Notation alpha := (alpha R N A inv nrm rpart v0).
+  Notation beta := (beta R N A inv nrm rpart v0).
+  Notation resid := (resid R N A inv nrm rpart v0).
+  Notation Vmat := (Vmat R N A inv nrm rpart v0).
+  Notation Tmat := (Tmat R N A inv nrm rpart v0).
+
+  (* (beta[k-1], V[k-1]) with the convention of the source for k = 0 *)
+  Definition bprev (k : nat) : R := match k with O => 0 | S k' => beta k' end.
+  Definition vprev (k : nat) : vec R := match k with O => (fun _ => 0) | S k' => Vk k' end.
+
+  Lemma lz_S k : lz R N A inv nrm rpart v0 (S k) = (Vk k, beta k, fun i => resid k i * inv (beta k)).
+  Proof.
+    unfold Krylov.Vk, Krylov.beta, Krylov.resid. cbn [lz].
+    destruct (lz R N A inv nrm rpart v0 k) as [[vp bp] v]. reflexivity.
+  Qed.
+
+  Lemma lz_prev k : lz R N A inv nrm rpart v0 k = (vprev k, bprev k, Vk k).
+  Proof. destruct k as [|k]; [reflexivity|]. rewrite lz_S. unfold Krylov.Vk. rewrite lz_S. reflexivity. Qed.
+
+  Lemma Vk_S k i : Vk (S k) i = resid k i * inv (beta k).
+  Proof. unfold Krylov.Vk. rewrite lz_S. reflexivity. Qed.
+
+  Lemma resid_eq k i : resid k i = mv R N A (Vk k) i - (alpha k * Vk k i + bprev k * vprev k i).
+  Proof. unfold Krylov.resid. rewrite lz_prev. reflexivity. Qed.
+
+  (* the three-term recurrence holds by construction (no assumption on A) *)
+  Lemma three_term k i : isz (beta k) = false ->
+    mv R N A (Vk k) i = bprev k * vprev k i + alpha k * Vk k i + beta k * Vk (S k) i.
+  Proof.
+    intros Hb. rewrite Vk_S. pose proof (inv_ok _ Hb) as Hi. pose proof (resid_eq k i) as Hr.
+    transitivity (resid k i + (alpha k * Vk k i + bprev k * vprev k i)); [rewrite Hr; ring|].
+    transitivity (bprev k * vprev k i + alpha k * Vk k i + resid k i * (beta k * inv (beta k))); [rewrite Hi; ring | ring].
+  Qed.
+
+  Lemma last_term k i : resid k i = 0 ->
+    mv R N A (Vk k) i = bprev k * vprev k i + alpha k * Vk k i.
+  Proof.
+    intros Hz. pose proof (resid_eq k i) as Hr. rewrite Hz in Hr.
+    transitivity (0 + (alpha k * Vk k i + bprev k * vprev k i)); [rewrite Hr; ring | ring].
+  Qed.
+
+  (* one column of V T for the tridiagonal T *)
+  Lemma Tmat_split d c :
+    Tmat d c = (if Nat.eqb d c then alpha c else 0) + (if Nat.eqb (S d) c then beta d else 0)
+               + (if Nat.eqb d (S c) then beta c else 0).
+  Proof.
+    unfold Krylov.Tmat.
+    destruct (Nat.eqb_spec d c); destruct (Nat.eqb_spec (S d) c); destruct (Nat.eqb_spec d (S c)); try lia; ring.
+  Qed.
+
+  Lemma VT_column m i c : c < m ->
+    sumn m (fun d => Vmat i d * Tmat d c)
+    = bprev c * vprev c i + alpha c * Vk c i + (if Nat.ltb (S c) m then beta c * Vk (S c) i else 0).
+  Proof.
+    intros Hc.
+    rewrite (sumn_ext R m _ (fun d => (if Nat.eqb d c then (fun d => Vmat i d * alpha c) d else 0)
+                                      + (if Nat.eqb (S d) c then Vmat i d * beta d else 0)
+                                      + (if Nat.eqb d (S c) then (fun d => Vmat i d * beta c) d else 0))).
+    2:{ intros d _. rewrite Tmat_split.
+        destruct (Nat.eqb d c); destruct (Nat.eqb (S d) c); destruct (Nat.eqb d (S c)); ring. }
+    rewrite !sumn_add. rewrite sumn_delta by exact Hc.
+    assert (E2 : sumn m (fun d => if Nat.eqb (S d) c then Vmat i d * beta d else 0) = bprev c * vprev c i).
+    { destruct c as [|c'].
+      - cbn [bprev vprev]. rewrite sumn_0; [ring | intros; reflexivity].
+      - rewrite (sumn_ext R m _ (fun d => if Nat.eqb d c' then (fun d => Vmat i d * beta d) d else 0)) by (intros; reflexivity).
+        rewrite sumn_delta by lia. cbn [bprev vprev]. unfold Krylov.Vmat. ring. }
+    rewrite E2.
+    destruct (Nat.ltb_spec (S c) m) as [H|H].
+    - rewrite sumn_delta by exact H. unfold Krylov.Vmat. ring.
+    - rewrite (sumn_0 R m (fun d => if Nat.eqb d (S c) then _ else 0)).
+      + unfold Krylov.Vmat. ring.
+      + intros d Hd. destruct (Nat.eqb_spec d (S c)); [lia | reflexivity].
+  Qed.
+
+  (* A V = V T for the first j+1 Lanczos vectors as soon as the residual of step j vanishes *)
+  Theorem lanczos_relation_exact j :
+    (forall k, k < j -> isz (beta k) = false) -> (forall i, i < N -> resid j i = 0) ->
+    lanczos_rel R N (S j) A Vmat Tmat.
+  Proof.
+    intros Hnb Hz i c Hi Hc. rewrite (VT_column (S j) i c Hc).
+    change (sumn N (fun l => A i l * Vmat l c)) with (mv R N A (Vk c) i).
+    destruct (Nat.ltb_spec (S c) (S j)) as [H|H].
+    - apply three_term. apply Hnb. lia.
+    - assert (c = j) by lia. subst c. rewrite (last_term j i (Hz i Hi)). ring.
+  Qed.
+
+  (* ---- the value returned by the loop ---- *)
+  Variable expT : nat -> matx R.        (* kernel of _expm_krylov: expT m stands for exp(dt * T_m) *)
+  Variable nrm0 : R.                    (* ||vstart|| *)
+  Variable v : vec R.                   (* vstart *)
+  Hypothesis v_norm : forall i, i < N -> v i = nrm0 * v0 i.     (* vstart = nrmv * (vstart / nrmv) *)
+
+  (* whatever the exit: the returned vector is nrmv * V[:it].T * E * e1 with E the kernel's matrix for the exact T of the
+     state at the exit; and if A V = V T holds there, it is q(A) v whenever the kernel evaluates the polynomial q *)
+  Lemma ret_poly m q : 1 <= m -> lanczos_rel R N m A Vmat Tmat ->
+    (forall c, c < m -> mv R m (expT m) (e1 R) c = poly_apply R m Tmat q (e1 R) c) ->
+    veq R N (ret_vec R N A inv nrm rpart v0 nrm0 (expT m) m) (poly_apply R N A q v).
+  Proof.
+    intros Hm Hrel HE i Hi. unfold ret_vec.
+    rewrite (mv_compat R m Vmat _ (poly_apply R m Tmat q (e1 R))) by exact HE.
+    symmetry. apply (krylov_poly_exact R N m A Vmat Tmat nrm0 v Hm Hrel); [|exact Hi].
+    intros l Hl. rewrite (v_norm l Hl). reflexivity.
+  Qed.
+
+  (* BREAKDOWN exit of the loop *)
+  Theorem krylov_return_breakdown bs conv it r : 1 <= N -> 1 <= bs ->
+    krylov_return R N A inv nrm rpart isz bs conv v0 nrm0 expT = Some (Breakdown, it, r) ->
+    r = ret_vec R N A inv nrm rpart v0 nrm0 (expT it) it /\ 1 <= it /\ it <= N /\
+    lanczos_rel R N it A Vmat Tmat /\
+    forall q, (forall c, c < it -> mv R it (expT it) (e1 R) c = poly_apply R it Tmat q (e1 R) c) ->
+              veq R N r (poly_apply R N A q v).
+  Proof.
+    intros HN Hbs E. unfold krylov_return in E.
+    destruct (fst (run N bs (fun j => isz (beta j)) conv)) as [[[e it'] s]|] eqn:Er; [|discriminate].
+    injection E as -> -> <-.
+    destruct (krylov_exit_spec N bs _ conv HN Hbs _ _ _ Er) as (H1 & H2 & Hnb & Hb & _).
+    specialize (Hb eq_refl).
+    assert (Hrel : lanczos_rel R N it A Vmat Tmat).
+    { replace it with (S (it - 1)%nat) by lia. apply lanczos_relation_exact.
+      - intros k Hk. apply Hnb. lia.
+      - apply nrm_zero. exact Hb. }
+    repeat split; auto. intros q HE. apply ret_poly; auto.
+  Qed.
+
+  (* FULL-SPACE exit: needs what exact Lanczos on a Hermitian matrix provides -- an orthonormal, complete set of N
+     vectors -- stated as hypotheses (checked numerically on the logged V), plus: beta and alpha are real *)
+  Hypothesis A_herm : hermitian R N A.
+  Hypothesis V_orth : orthonormal R N N Vmat.
+  Hypothesis V_complete : forall i l, i < N -> l < N ->
+    sumn N (fun k => Vmat i k * rcj R (Vmat l k)) = if Nat.eqb i l then 1 else 0.
+  Hypothesis nrm_real : forall w, rcj R (nrm w) = nrm w.
+  Hypothesis rpart_real : forall x, rcj R x = x -> rpart x = x.
+
+  Notation vdot := (vdot R N).
+
+  Lemma vdot_orth a b : a < N -> b < N -> vdot (Vk a) (Vk b) = if Nat.eqb a b then 1 else 0.
+  Proof. intros Ha Hb. exact (V_orth a b Ha Hb). Qed.
+
+  Lemma vdot_ext x y y' : (forall i, i < N -> y i = y' i) -> vdot x y = vdot x y'.
+  Proof. intros H. unfold Krylov.vdot. apply sumn_ext. intros i Hi. rewrite (H i Hi). reflexivity. Qed.
+
+  Lemma vdot_ext_l x x' y : (forall i, i < N -> x i = x' i) -> vdot x y = vdot x' y.
+  Proof. intros H. unfold Krylov.vdot. apply sumn_ext. intros i Hi. rewrite (H i Hi). reflexivity. Qed.
+
+  Lemma vdot_lin3 x a b c p q : vdot x (fun i => a i - (p * b i + q * c i)) = vdot x a - (p * vdot x b + q * vdot x c).
+  Proof.
+    unfold Krylov.vdot.
+    transitivity (sumn N (fun i => rcj R (x i) * a i) + (ropp R 1) * (p * sumn N (fun i => rcj R (x i) * b i) + q * sumn N (fun i => rcj R (x i) * c i))); [|ring].
+    rewrite <- !sumn_scale_l, <- !sumn_add. rewrite <- sumn_scale_l, <- sumn_add.
+    apply sumn_ext. intros; ring.
+  Qed.
+
+  Lemma vdot_clin3 a b c p q t y :
+    vdot (fun i => p * a i + q * b i + t * c i) y = rcj R p * vdot a y + rcj R q * vdot b y + rcj R t * vdot c y.
+  Proof.
+    unfold Krylov.vdot. rewrite <- !sumn_scale_l, <- !sumn_add.
+    apply sumn_ext. intros i _. rewrite !rcj_add, !rcj_mul. ring.
+  Qed.
+
+  (* <x, A y> = <A x, y> for Hermitian A *)
+  Lemma herm_adjoint x y : vdot x (mv R N A y) = vdot (mv R N A x) y.
+  Proof.
+    unfold Krylov.vdot, mv.
+    rewrite (sumn_ext R N _ (fun i => sumn N (fun l => rcj R (x i) * A i l * y l))).
+    2:{ intros i _. rewrite <- sumn_scale_l. apply sumn_ext. intros; ring. }
+    rewrite sumn_exchange. apply sumn_ext. intros l Hl.
+    rewrite sumn_cj, <- sumn_scale_r. apply sumn_ext. intros i Hi.
+    rewrite rcj_mul. rewrite (A_herm i l Hi Hl). ring.
+  Qed.
+
+  Lemma vprev_orth k b : k < N -> b < N -> bprev k * vdot (vprev k) (Vk b) = bprev k * (if Nat.eqb (S b) k then 1 else 0).
+  Proof.
+    intros Hk Hb. destruct k as [|k']; cbn [bprev vprev]; [ring|].
+    rewrite vdot_orth by lia. rewrite (Nat.eqb_sym k' b). reflexivity.
+  Qed.
+
+  (* the residual of the last step is orthogonal to every Lanczos vector ... *)
+  Lemma resid_last_orth : (forall k, k + 1 < N -> isz (beta k) = false) ->
+    forall k, k < N -> vdot (Vk k) (resid (N - 1)%nat) = 0.
+  Proof.
+    intros Hnb k Hk. set (j := (N - 1)%nat). assert (Hj : j < N) by lia.
+    rewrite (vdot_ext _ _ (fun i => mv R N A (Vk j) i - (alpha j * Vk j i + bprev j * vprev j i))) by (intros; apply resid_eq).
+    rewrite vdot_lin3. rewrite herm_adjoint.
+    destruct (Nat.eq_dec k j) as [->|Hne].
+    - (* k = j: <v_j, A v_j> is real, so alpha_j equals it *)
+      rewrite vdot_orth by lia. rewrite Nat.eqb_refl.
+      assert (Ea : alpha j = vdot (mv R N A (Vk j)) (Vk j)).
+      { unfold Krylov.alpha, lz_alpha. apply rpart_real. rewrite <- herm_adjoint.
+        exact (hermitian_rayleigh_real R N A (Vk j) A_herm). }
+      assert (Ep : bprev j * vdot (Vk j) (vprev j) = 0).
+      { destruct j as [|j']; cbn [bprev vprev].
+        - ring.
+        - rewrite vdot_orth by lia. destruct (Nat.eqb_spec (S j') j'); [lia | ring]. }
+      rewrite Ep, <- Ea. ring.
+    - (* k < j: expand A v_k by the three-term recurrence *)
+      assert (Hkj : k < j) by lia.
+      rewrite (vdot_ext_l _ (fun i => bprev k * vprev k i + alpha k * Vk k i + beta k * Vk (S k) i)) by
+        (intros i _; apply three_term; apply Hnb; lia).
+      rewrite vdot_clin3. rewrite !vdot_orth by lia.
+      assert (E1 : rcj R (bprev k) * vdot (vprev k) (Vk j) = 0).
+      { destruct k as [|k']; cbn [bprev vprev]; [rewrite rcj_0; ring|].
+        rewrite vdot_orth by lia. destruct (Nat.eqb_spec k' j); [lia | ring]. }
+      rewrite E1.
+      assert (E2 : bprev j * vdot (Vk k) (vprev j) = bprev j * (if Nat.eqb (S k) j then 1 else 0)).
+      { destruct j as [|j']; cbn [bprev vprev]; [ring|].
+        rewrite vdot_orth by lia. destruct (Nat.eqb_spec k j'); destruct (Nat.eqb_spec (S k) (S j')); try lia; reflexivity. }
+      rewrite E2.
+      destruct (Nat.eqb_spec k j) as [|_]; [lia|].
+      destruct (Nat.eqb_spec (S k) j) as [E|_].
+      + (* k + 1 = j : beta_k (real) cancels *)
+        subst j. rewrite <- E. cbn [bprev]. unfold Krylov.beta at 1. rewrite nrm_real. fold (beta k). ring.
+      + ring.
+  Qed.
+
+  (* ... and the Lanczos vectors are complete, so it vanishes *)
+  Lemma resid_last_zero : (forall k, k + 1 < N -> isz (beta k) = false) ->
+    forall i, i < N -> resid (N - 1)%nat i = 0.
+  Proof.
+    intros Hnb i Hi. set (r := resid (N - 1)%nat).
+    transitivity (sumn N (fun l => (if Nat.eqb i l then 1 else 0) * r l)).
+    { rewrite (sumn_ext R N _ (fun l => if Nat.eqb l i then r l else 0)).
+      - rewrite sumn_delta by exact Hi. reflexivity.
+      - intros l _. rewrite (Nat.eqb_sym i l). destruct (Nat.eqb l i); ring. }
+    rewrite (sumn_ext R N _ (fun l => sumn N (fun k => Vmat i k * (rcj R (Vmat l k) * r l)))).
+    2:{ intros l Hl. rewrite <- (V_complete i l Hi Hl). rewrite <- sumn_scale_r. apply sumn_ext. intros; ring. }
+    rewrite sumn_exchange. apply sumn_0. intros k Hk.
+    rewrite sumn_scale_l. change (sumn N (fun l => rcj R (Vmat l k) * r l)) with (vdot (Vk k) r).
+    unfold r. rewrite (resid_last_orth Hnb k Hk). ring.
+  Qed.
+
+  Theorem krylov_return_fullspace bs conv it r : 1 <= N -> 1 <= bs ->
+    krylov_return R N A inv nrm rpart isz bs conv v0 nrm0 expT = Some (FullSpace, it, r) ->
+    r = ret_vec R N A inv nrm rpart v0 nrm0 (expT it) it /\ it = N /\
+    lanczos_rel R N it A Vmat Tmat /\
+    forall q, (forall c, c < it -> mv R it (expT it) (e1 R) c = poly_apply R it Tmat q (e1 R) c) ->
+              veq R N r (poly_apply R N A q v).
+  Proof.
+    intros HN Hbs E. unfold krylov_return in E.
+    destruct (fst (run N bs (fun j => isz (beta j)) conv)) as [[[e it'] s]|] eqn:Er; [|discriminate].
+    injection E as -> -> <-.
+    destruct (krylov_exit_spec N bs _ conv HN Hbs _ _ _ Er) as (H1 & H2 & Hnb & _ & Hf).
+    specialize (Hf eq_refl). subst it.
+    assert (Hrel : lanczos_rel R N N A Vmat Tmat).
+    { replace N with (S (N - 1)%nat) at 2 by lia. apply lanczos_relation_exact.
+      - intros k Hk. apply Hnb. lia.
+      - apply resid_last_zero. intros k Hk. apply Hnb. exact Hk. }
+    repeat split; auto. intros q HE. apply ret_poly; auto.
+  Qed.
+End DataProofs.
+
+(* ================================================================== a concrete instance of the data model
+   The field with three elements (a commutative ring with trivial involution in which 1/x exists and
+   x^2 + y^2 = 0 forces x = y = 0), N = 2: all contracts of Part 4 hold, and both exact exits occur. *)
+Module KEx.
+  Inductive f3 := a0 | a1 | a2.
+  Definition add (x y : f3) : f3 :=
+    match x, y with a0, z | z, a0 => z | a1, a1 => a2 | a1, a2 | a2, a1 => a0 | a2, a2 => a1 end.
+  Definition mul (x y : f3) : f3 :=
+    match x, y with a0, _ | _, a0 => a0 | a1, z | z, a1 => z | a2, a2 => a1 end.
+  Definition opp (x : f3) : f3 := match x with a0 => a0 | a1 => a2 | a2 => a1 end.
+  Definition sub (x y : f3) : f3 := add x (opp y).
+
+  Lemma f3_th : ring_theory a0 a1 add mul sub opp (@eq f3).
+  Proof. constructor; intros; repeat match goal with x : f3 |- _ => destruct x end; reflexivity. Qed.
+
+  Definition F3 : CRing.
+  Proof.
+    refine {| car := f3; r0 := a0; r1 := a1; radd := add; rmul := mul; rsub := sub; ropp := opp;
+              rcj := fun x => x; rth := f3_th |}; intros; reflexivity.
+  Defined.
+
+  Definition inv (x : f3) : f3 := x.                                  (* 1/1 = 1, 1/2 = 2 *)
+  Definition isz (x : f3) : bool := match x with a0 => true | _ => false end.
+  Definition nrm (w : vec F3) : f3 := add (mul (w 0) (w 0)) (mul (w 1) (w 1)).
+  Definition rpart (x : f3) : f3 := x.
+  Definition diagA : matx F3 := fun i l => match i, l with 0, 0 => a1 | 1, 1 => a2 | _, _ => a0 end.
+  Definition flipA : matx F3 := fun i l => match i, l with 0, 1 => a1 | 1, 0 => a1 | _, _ => a0 end.
+  Definition ve0 : vec F3 := fun i => match i with 0 => a1 | _ => a0 end.
+  Definition idE : nat -> matx F3 := fun _ i l => if Nat.eqb i l then a1 else a0.
+
+  Lemma inv_ok : forall x, isz x = false -> mul x (inv x) = a1.
+  Proof. intros [| |]; cbn; intros; try reflexivity; discriminate. Qed.
+
+  Lemma nrm_zero : forall w : vec F3, isz (nrm w) = true -> forall i, i < 2 -> w i = a0.
+  Proof.
+    intros w H i Hi. unfold nrm in H.
+    destruct i as [|[|i]]; [| |lia]; destruct (w 0), (w 1); cbn in H; try reflexivity; discriminate.
+  Qed.
+
+  (* an eigenvector as start vector: breakdown at the first iteration *)
+  Lemma breakdown_run :
+    exists r, krylov_return F3 2 diagA inv nrm rpart isz 2 (fun _ => false) ve0 a1 idE = Some (Breakdown, 1, r).
+  Proof. eexists. vm_compute. reflexivity. Qed.
+
+  (* the flip matrix: the Krylov space is the full space, V = identity is orthonormal and complete *)
+  Lemma fullspace_run :
+    exists r, krylov_return F3 2 flipA inv nrm rpart isz 2 (fun _ => false) ve0 a1 idE = Some (FullSpace, 2, r).
+  Proof. eexists. vm_compute. reflexivity. Qed.
+
+  Ltac two := intros;
+    repeat match goal with H : _ < _ |- _ => vm_compute in H end;
+    repeat match goal with
+    | H : S _ <= 0 |- _ => exfalso; inversion H
+    | H : S ?a <= S ?n |- _ => is_var a; destruct a as [|a]; [clear H | apply le_S_n in H]
+    end; vm_compute; reflexivity.
+
+  Lemma fullspace_hyps :
+    hermitian F3 2 flipA /\ orthonormal F3 2 2 (Vmat F3 2 flipA inv nrm rpart ve0) /\
+    (forall i l, i < 2 -> l < 2 ->
+       @sumn F3 2 (fun k => rmul F3 (Vmat F3 2 flipA inv nrm rpart ve0 i k) (rcj F3 (Vmat F3 2 flipA inv nrm rpart ve0 l k)))
+       = if Nat.eqb i l then r1 F3 else r0 F3) /\
+    (forall w : vec F3, rcj F3 (nrm w) = nrm w) /\ (forall x : F3, rcj F3 x = x -> rpart x = x).
+  Proof.
+    split; [unfold hermitian; two|]. split; [unfold orthonormal; two|]. split; [two|]. split; reflexivity.
+  Qed.
+End KEx.
